@@ -16,6 +16,7 @@ type Spelling struct {
 	Blanks    int  // 0 none, 1 empty lines after some lines, 2 whitespace-only lines after some lines, 3 lines of Unicode white space only
 	LeadBlank bool // a blank line before the first root
 	FinalNL   bool
+	MixedEOL  bool // with CRLF: each line ends in LF or in CRLF, chosen per line (seeded) - a file that went through editors of both kinds
 	Tight     bool // about half of the lines (seeded) are written WITHOUT the blank after the bullet / the #: "-name"
 	Seed      uint64
 }
@@ -36,7 +37,7 @@ func (s Spelling) String() string {
 		u = fmt.Sprintf("%dsp", len(s.Unit))
 	}
 	b := []string{"-", "*", "+", "mixed"}[s.Bullet]
-	return fmt.Sprintf("unit=%s bullet=%s heading=%d crlf=%v blanks=%d lead=%v finalNL=%v tight=%v", u, b, s.Heading, s.CRLF, s.Blanks, s.LeadBlank, s.FinalNL, s.Tight)
+	return fmt.Sprintf("unit=%s bullet=%s heading=%d crlf=%v%s blanks=%d lead=%v finalNL=%v tight=%v", u, b, s.Heading, s.CRLF, map[bool]string{true: "(mixed with LF per line)", false: ""}[s.MixedEOL], s.Blanks, s.LeadBlank, s.FinalNL, s.Tight)
 }
 
 // AllSpellings enumerates the notation family (without leading blank line): 8 units (one to three tabs, 1-8 spaces) x 4 bullet
@@ -69,7 +70,7 @@ func SixSpellings(seed uint64) []Spelling {
 		{Unit: "  ", Bullet: 1, FinalNL: true, Seed: seed},
 		{Unit: "    ", Bullet: 3, FinalNL: true, Tight: true, Seed: seed},
 		{Unit: "  ", Bullet: 0, Heading: 1, FinalNL: true, Tight: true, Seed: seed},
-		{Unit: "   ", Bullet: 0, CRLF: true, Blanks: 1, FinalNL: false, Seed: seed},
+		{Unit: "   ", Bullet: 0, CRLF: true, MixedEOL: true, Blanks: 1, FinalNL: false, Seed: seed},
 		{Unit: " ", Bullet: 2, Blanks: 2, FinalNL: true, Seed: seed},
 	}
 }
@@ -87,6 +88,9 @@ func RandSpelling(r *Rand) Spelling {
 	}
 	if r.Chance(1, 4) {
 		s.Heading = r.Range(1, 3)
+	}
+	if s.CRLF && r.Chance(1, 2) {
+		s.MixedEOL = true
 	}
 	return s
 }
@@ -182,7 +186,19 @@ func Join(lines []Line, crlf, finalNL bool) string {
 
 // Spell writes the forest as a Markdown document.
 func Spell(f model.Forest, s Spelling) string {
-	return Join(SpellLines(f, s), s.CRLF, s.FinalNL)
+	lines := SpellLines(f, s)
+	if !(s.CRLF && s.MixedEOL) {
+		return Join(lines, s.CRLF, s.FinalNL)
+	}
+	r := New(s.Seed, 78)
+	var sb strings.Builder
+	for i, l := range lines {
+		sb.WriteString(l.Text)
+		if i < len(lines)-1 || s.FinalNL {
+			sb.WriteString([]string{"\n", "\r\n"}[r.Intn(2)])
+		}
+	}
+	return sb.String()
 }
 
 // Malformation classes for C02.
